@@ -37,3 +37,12 @@ Theorem C09_constructors_exact :
   forall nw l d, tour_exact nw (new_computing nw l d).
 Proof. intros nw l d. unfold tour_exact. reflexivity. Qed.
 Print Assumptions C09_constructors_exact.
+
+(* Schedule level: what a passing [check_exact] (evaluated after every modification of every generated history,
+   on every stage snapshot and on every dumped candidate) says: every tour's caches, the schedule's costs,
+   unserved passengers, maintenance violation (per cycle counters and totals) and per-depot spawn counts and
+   balances equal their from-scratch values. *)
+From RS Require Import SchedObs InvStmts InvFacts.
+Theorem C09_exact_meaning : forall nw o, stmt_exact_meaning nw o.
+Proof. exact exact_meaning. Qed.
+Print Assumptions C09_exact_meaning.
